@@ -167,10 +167,16 @@ class WK:
         self.d.vf_wk_encrypt(ct, m, params, *a, pre)
         return ct
 
-    def decrypt(self, ct, sk=None, msk=None):
+    def decrypt(self, ct, sk=None, msk=None, prefill=None):
+        """prefill: what the caller's output object holds before the call (e.g. the plaintext of an earlier decryption)."""
         out = self.buf(576)
+        if prefill is not None:
+            ctypes.memmove(out, prefill, 576)
         self.d.vf_wk_decrypt(out, ct, sk, msk)
         return ctypes.string_at(out, 576)
+
+    def gt_inv(self, a):
+        return self._capi("gt_negate", 576, a)[1]
 
     def sign(self, params, sk, attrs, msg, pre=None, attrs_null=False):
         sig = self.blob(4)
